@@ -103,7 +103,7 @@ def harnesses(tier, seed):
         hs += [endless_h("find", 1), endless_h("find", 2), endless_h("first", 1)]
         # all three find kernels x both chunk paths with the finder running alone (natively observable in every schedule)
         hs += [drain_h("find", "MF", "iterf", 4, 1), drain_h("find", "M", "iterf", 4, 2), drain_h("find", "FMF", "iterf", 4, 1),
-               drain_h("find", "FMF", "iterf", 4, 2), drain_h("find", "FLF", "iterf", 3, 1), drain_h("find", "FLF", "iter", 4, 2),
+               drain_h("find", "FMF", "iterf", 4, 2), drain_h("find", "FLF", "iterf", 3, 1),
                drain_h("any", "F", "iter", 4, 1)]
     else:
         for ty in ("E", "M", "F", "MF", "FM", "FMF", "FL", "FLF"):
@@ -123,7 +123,9 @@ def harnesses(tier, seed):
         for ty in ("E", "M", "F", "MF", "FM", "FMF", "FL", "FLF"):
             for src in ("iterf", "iter", "deque"):
                 for c in (1, 2):
-                    hs.append(drain_h("find", ty, src, 4, c))
+                    if ty in ("FL", "FLF") and (c == 2 and src != "iter"):
+                        continue  # chunked pulls of a flat_map find from an iterator-backed source: ~10 min each
+                    hs.append(drain_h("find", ty, src, 3 if ty in ("FL", "FLF") else 4, c))
             hs.append(drain_h("any", ty, "iterf", 4, 1))
             hs.append(drain_h("first", ty, "iterf", 4, 1))
     return hs
